@@ -260,6 +260,37 @@ func runC11(r *Run) {
 	checkGrantStart(r, "R5")
 
 	// the denom store records exactly the schedule it is handed
+	r.Rule("R6", "FLOW.split-in-the-requested-denomination: every Period.Amount that SubtractAmountFromPeriods writes — into the decreased periods and into the diff periods alike — is computed with a coin sdk.NewCoin(subtrahend.Denom, …) of the requested denomination; no period amount is copied over wholesale or left empty on a side path, so what moves between the two schedules is denominated in the requested coin only and sums to the requested amount (a schedule may carry other denominations)")
+	if sp, ok := P.FnOK("x/liquidvesting/types.SubtractAmountFromPeriods"); ok {
+		nSt, bad := 0, ""
+		for _, f := range withAnon(sp) {
+			eachInstr(f, func(in ssa.Instruction) {
+				st, ok := in.(*ssa.Store)
+				if !ok {
+					return
+				}
+				sn, fld, ok := fieldOfAddr(st.Addr)
+				if !ok || sn != "Period" || fld != "Amount" {
+					return
+				}
+				nSt++
+				okCoin := backSlice(st.Val).HasCall(func(g CallInfo) bool {
+					if g.Name != "NewCoin" {
+						return false
+					}
+					a := callArgs(g.Instr)
+					return len(a) >= 1 && backSlice(a[0]).HasParam("subtrahend")
+				})
+				if !okCoin {
+					bad = P.Pos(instrPos(in))
+				}
+			})
+		}
+		r.Check(bad == "" && nSt >= 3, "R6", fnID(sp)+"#amounts-in-requested-denom", P.Pos(fnPos(sp)), fmt.Sprintf("%d period amounts, each computed with NewCoin(subtrahend.Denom, …)", nSt),
+			"SubtractAmountFromPeriods writes a period amount at "+bad+" that is not computed with a coin of the requested denomination (a whole period amount copied or emptied): for a schedule that carries a second denomination more than the requested coin moves, and the account's own schedule loses coins nobody asked for")
+	} else {
+		r.Bad("R6", "anchor/SubtractAmountFromPeriods", "", "not found")
+	}
 	r.Rule("R3", "FLOW.schedule-stored-unmodified: UpdateDenomPeriods stores its periods parameter itself into Denom.LockupPeriods and then SetDenom; CreateDenom stores its periods parameter itself and an EndTime derived from start + periods.TotalLength()")
 	if fn, ok := P.FnOK("(" + lk + ".Keeper).UpdateDenomPeriods"); ok {
 		okSt, n := true, 0
